@@ -21,6 +21,8 @@ func (e *Engine) newVC(name string) *VC {
 	return &VC{eng: e, Name: name, counts: map[string]int{}, Assumed: map[string]bool{}, consts: map[string]string{}}
 }
 
+const splitElse = int64(-1) << 62 // marks the 'else' case of a split
+
 // verifyFunc generates the VCs of fn against its contract fc (one per split case).
 func (e *Engine) verifyFunc(fn *ssa.Function, fc *FuncContract) (vcs []*VC, err error) {
 	base := shortPkg(fc.Pkg) + "." + fc.Key
@@ -37,6 +39,10 @@ func (e *Engine) verifyFunc(fn *ssa.Function, fc *FuncContract) (vcs []*VC, err 
 		for _, c := range cases {
 			for v := sp.Lo; v <= sp.Hi; v++ {
 				next = append(next, splitCase{fmt.Sprintf("%s#%s=%d", c.name, strings.ReplaceAll(sp.Text, " ", ""), v), append(append([]int64{}, c.vals...), v)})
+			}
+			if sp.Else {
+				// the remaining values, as one case (splitElse marks it)
+				next = append(next, splitCase{fmt.Sprintf("%s#%s=else", c.name, strings.ReplaceAll(sp.Text, " ", "")), append(append([]int64{}, c.vals...), splitElse)})
 			}
 		}
 		cases = next
@@ -204,7 +210,7 @@ func (e *Engine) runVC(vc *VC, fn *ssa.Function, fc *FuncContract, splitVals []i
 	for i, sp := range fc.Splits {
 		v := env.eval(sp.E)
 		if vc.exhaustOnly {
-			if !(v.Untyped == nil && v.sort() == SBool) {
+			if !(v.Untyped == nil && v.sort() == SBool) && !sp.Else {
 				exhs = append(exhs, exh{v.term(), sp.Text, v.sort().Bits(), v.signed(), sp.Lo, sp.Hi})
 			}
 			continue
@@ -221,7 +227,23 @@ func (e *Engine) runVC(vc *VC, fn *ssa.Function, fc *FuncContract, splitVals []i
 			}
 			continue
 		}
+		if splitVals[i] == splitElse {
+			le, ge := "bvsle", "bvsge"
+			if !v.signed() {
+				le, ge = "bvule", "bvuge"
+			}
+			vc.assume(not(and(app(ge, v.term(), bvLit(v.sort().Bits(), sp.Lo)), app(le, v.term(), bvLit(v.sort().Bits(), sp.Hi)))))
+			continue
+		}
 		lit := bvLit(v.sort().Bits(), splitVals[i])
+		if id, isId := sp.E.(Ident); isId {
+			// a scalar parameter: the case value replaces it, so that branches on it fold away
+			for pi, pn := range names {
+				if pn == id.Name && pi < len(params) && len(params[pi].C) == 1 && params[pi].C[0] == v.term() {
+					params[pi].C[0] = lit
+				}
+			}
+		}
 		vc.assume(eq(v.term(), lit))
 		if strings.HasPrefix(v.term(), "(select (select ") {
 			vc.consts[v.term()] = lit
